@@ -11,6 +11,7 @@ import (
 	"io"
 	"net"
 	"net/http"
+	"os"
 	"strings"
 	"sync/atomic"
 	"time"
@@ -70,18 +71,17 @@ type groupResult struct {
 	Sent     int      `json:"sent"`
 	Answered int      `json:"answered"`
 	Retried  int      `json:"retried"`
-	Require  string   `json:"require"` // all | first | none
+	Require  string   `json:"require"` // all | none
 	Lost     []string `json:"lost,omitempty"`
 	Err      string   `json:"err,omitempty"`
 	Rcodes   string   `json:"rcodes,omitempty"`
+	MS       int64    `json:"ms"`
 }
 
 func (g *groupResult) ok() bool {
 	switch g.Require {
 	case "all":
 		return g.Answered == g.Sent
-	case "first":
-		return g.Sent == 0 || (len(g.Lost) == 0 || g.Lost[0] != "#0")
 	}
 	return true
 }
@@ -95,7 +95,12 @@ type exchanger func(qs []query, wait time.Duration) (answered []bool, rcodes []i
 // after the first query that stays unanswered.
 func runGroup(g *groupResult, ex exchanger, qs []query) {
 	g.Sent = len(qs)
+	t0 := time.Now()
+	defer func() { g.MS = time.Since(t0).Milliseconds() }()
 	answered, rcodes, err := ex(qs, firstWait)
+	if os.Getenv("C20_TRACE") != "" {
+		fmt.Printf("TRACE %s/%s first exchange done after %v: %v err=%v\n", g.Group, g.Client, time.Since(t0), answered, err)
+	}
 	if err != nil {
 		g.Err = err.Error()
 	}
@@ -108,7 +113,7 @@ func runGroup(g *groupResult, ex exchanger, qs []query) {
 		if answered[i] {
 			continue
 		}
-		if !gaveUp && (g.Require == "all" || (g.Require == "first" && i == 0)) {
+		if !gaveUp && g.Require == "all" {
 			for try := 0; try < 2 && !answered[i]; try++ {
 				g.Retried++
 				a, rc, rerr := ex(qs[i:i+1], retryWait)
@@ -123,9 +128,8 @@ func runGroup(g *groupResult, ex exchanger, qs []query) {
 		}
 		if !answered[i] {
 			gaveUp = true
-			g.Lost = append(g.Lost, fmt.Sprintf("#%d", i))
-			if len(g.Lost) <= 3 {
-				g.Lost = append(g.Lost, qs[i].String())
+			if len(g.Lost) < 4 {
+				g.Lost = append(g.Lost, fmt.Sprintf("#%d %s", i, qs[i]))
 			}
 		}
 	}
@@ -454,25 +458,27 @@ func runTraffic(servers []liveServer, sp scriptParams) (groups []groupResult, qu
 					}
 					add("dns-tcp-pipeline", "allowlisted", "all", streamExchanger(srcAllowlisted, addr, nil), pipe)
 					// rate-limited client, IPv4
-					reqN, reqRest := "all", "all"
+					req := "all"
 					if sp.RateTouched {
-						reqN, reqRest = "first", "none"
+						req = "none"
 					}
-					add("dns-udp", "limited-v4", reqN, udpExchanger(srcLimited4, addr), []query{
-						{name("n1"), dns.TypeA, 0}, {name("n2"), dns.TypeA, 0}, {name("n3"), dns.TypeAAAA, 0}, {name("n4"), dns.TypeTXT, 0},
+					add("dns-udp-first", "limited-v4", "all", udpExchanger(srcLimited4, addr), []query{{name("n1"), dns.TypeA, 0}})
+					add("dns-udp", "limited-v4", req, udpExchanger(srcLimited4, addr), []query{
+						{name("n2"), dns.TypeA, 0}, {name("n3"), dns.TypeAAAA, 0}, {name("n4"), dns.TypeTXT, 0},
 					})
-					add("dns-tcp", "limited-v4", reqRest, streamExchanger(srcLimited4, addr, nil), []query{
+					add("dns-tcp", "limited-v4", req, streamExchanger(srcLimited4, addr, nil), []query{
 						{name("n5"), dns.TypeA, 0}, {bigHost, dns.TypeTXT, 0},
 					})
 				} else {
-					reqN, reqRest := "all", "all"
+					req := "all"
 					if sp.RateTouched {
-						reqN, reqRest = "first", "none"
+						req = "none"
 					}
-					add("dns-udp", "limited-v6", reqN, udpExchanger(srcLimited6, addr), []query{
-						{name("s1"), dns.TypeA, 0}, {name("s2"), dns.TypeAAAA, 0}, {name("s3"), dns.TypeTXT, 0},
+					add("dns-udp-first", "limited-v6", "all", udpExchanger(srcLimited6, addr), []query{{name("s1"), dns.TypeA, 0}})
+					add("dns-udp", "limited-v6", req, udpExchanger(srcLimited6, addr), []query{
+						{name("s2"), dns.TypeAAAA, 0}, {name("s3"), dns.TypeTXT, 0},
 					})
-					add("dns-tcp", "limited-v6", reqRest, streamExchanger(srcLimited6, addr, nil), []query{
+					add("dns-tcp", "limited-v6", req, streamExchanger(srcLimited6, addr, nil), []query{
 						{name("s4"), dns.TypeA, 0}, {bigHost, dns.TypeTXT, 0},
 					})
 				}
